@@ -434,6 +434,19 @@ pub const SCALES: [(&str, &[&str]); 6] = [
 fn temp_value(rng: &mut Rng) -> (String, String) {
     // (text, exact value as n/d)
     use num_bigint::BigInt; use num_rational::BigRational;
+    // magnitudes beyond every machine type (f64 overflows above 1.8e308, underflows below 5e-324): exact arithmetic
+    // has no such limits
+    if rng.chance(1, 10) {
+        let e = *rng.pick(&[19u32, 39, 309, 400, 1000]);
+        let m = 1 + rng.below(9);
+        let neg = rng.chance(1, 3);
+        let p = num_traits::pow(BigInt::from(10), e as usize);
+        return if rng.chance(1, 2) {
+            (format!("{}{}e{}", if neg { "-" } else { "" }, m, e), format!("{}{}/1", if neg { "-" } else { "" }, BigInt::from(m) * &p))
+        } else {
+            (format!("({}{}|1e{})", if neg { "-" } else { "" }, m, e), { let q = BigRational::new(BigInt::from(if neg { -(m as i64) } else { m as i64 }), p); format!("{}/{}", q.numer(), q.denom()) })
+        };
+    }
     let (n, d): (i64, i64) = match rng.below(8) {
         0 => (0, 1), 1 => (rng.range(-500, 500), 1), 2 => (rng.range(-100000, 100000), 1000), 3 => (-27315, 100),
         4 => (rng.range(-1_000_000_000, 1_000_000_000), 1 + rng.below(1000) as i64), 5 => (100, 1), 6 => (rng.range(-9, 9), 7), _ => (rng.next() as i64 / 4, 1 + rng.below(1_000_000) as i64),
